@@ -441,8 +441,22 @@ def oracle_schedule(case):
     return None, None, sched
 
 
+def _constant_table(seed_value):
+    """Modules that keep every thread inside the expression printers / folder / literal printers for a long time, with values that differ
+    per module so that text written into another thread's buffer shows."""
+    lines = []
+    for k in range(14):
+        a, b, c = seed_value * 7 + k, seed_value * 13 + 2 * k + 1, seed_value + 3 * k
+        lines.append('TABLE_%d_%d = %d * %d + %d - (%d << 2)' % (seed_value, k, a, b, c, a))
+        if k % 3 == 0:
+            lines.append("TEXT_%d_%d = f'{TABLE_%d_%d!r:>{%d + %d}} %s' + 'text %d' * (%d + 1)" % (seed_value, k, seed_value, k, k, seed_value, 'x' * (k + 1), k * seed_value, k % 3))
+        if k % 4 == 0:
+            lines.append('HALF_%d_%d = %d * .5 + %d.25e%d - 0x%x' % (seed_value, k, 1000 * (seed_value + k), k, seed_value % 5, a * b))
+    return '\n'.join(lines) + '\n'
+
+
 def run_schedules(ctx):
-    pool = SOURCES[:8]
+    pool = SOURCES[:8] + [_constant_table(v) for v in (1, 2, 3, 5)] * 2
 
     @st.composite
     def cases(draw):
